@@ -34,6 +34,7 @@ type romodScn struct {
 	Transport string   `json:"transport"` // conn | stdio
 	Missing   bool     `json:"missing"`   // the module directory does not exist yet
 	Mixed     bool     `json:"mixed"`     // several modules with mixed writability are configured
+	Layout    string   `json:"layout"`    // alone | sibling | prefix | nested | parent: where writable modules sit relative to the module under test
 }
 
 type romodObs struct {
@@ -116,8 +117,21 @@ func romodHandler(w *workerCtx, line []byte) (any, error) {
 		mod = rsyncd.Module{Name: "m", FS: mapfs}
 	}
 	mods := []rsyncd.Module{mod}
-	if s.Mixed {
+	if s.Mixed && s.Layout == "" {
+		s.Layout = "sibling"
+	}
+	switch s.Layout {
+	case "sibling":
 		mods = []rsyncd.Module{{Name: "mm", Path: otherRW, Writable: true}, mod, {Name: "m2", Path: otherRO}}
+	case "prefix": // a writable module whose path is a string prefix of the module's path (…/mo vs …/mod)
+		pre := filepath.Join(base, "mo")
+		os.MkdirAll(pre, 0o755)
+		os.WriteFile(filepath.Join(pre, "keep"), []byte("other"), 0o644)
+		mods = []rsyncd.Module{{Name: "mo", Path: pre, Writable: true}, mod, {Name: "m2", Path: otherRO}}
+	case "nested": // the module's directory lies below a writable module's directory
+		mods = []rsyncd.Module{{Name: "top", Path: base, Writable: true}, mod}
+	case "parent": // a writable module's directory lies below the module's directory
+		mods = []rsyncd.Module{mod, {Name: "sub", Path: filepath.Join(modDir, "existing"), Writable: true}}
 	}
 	before := snapTree(base)
 	mapBefore := fmt.Sprintf("%v", len(mapfs))
